@@ -27,12 +27,31 @@ import (
 func f32bits(f float32) uint32 { return math.Float32bits(f) }
 func f64bits(f float64) uint64 { return math.Float64bits(f) }
 
+// Comp is one numeric instruction inside a function body; Arg lists which parameters of the function are its operands.
+type Comp struct {
+	Op   *Op
+	Imm  []byte
+	ImmZ *big.Int
+	Arg  []int
+}
+
+// Variant is one generated function: a single instruction, or a "combo" of two or three instructions in ONE body
+// (so that they share the backend's per-function state: constant pool, cached labels, scratch registers) returning
+// all their results.
 type Variant struct {
-	Op    *Op
-	Imm   []byte // encoded immediate bytes
-	ImmZ  *big.Int
+	Comps []Comp
+	Name  string // "" for single-instruction functions, otherwise family:op1+op2[+op3]
+	P     string
 	Calls [][]Val
 	Const []bool // which calls also run in constant mode
+}
+
+func immZ(imm []byte) *big.Int {
+	z := new(big.Int)
+	for l := len(imm) - 1; l >= 0; l-- {
+		z.Lsh(z, 8).Or(z, big.NewInt(int64(imm[l])))
+	}
+	return z
 }
 
 func vt(t byte) byte {
@@ -108,13 +127,13 @@ func newMB(mem bool) *modBuilder {
 	return b
 }
 
-func (b *modBuilder) add(params []byte, result byte, body []byte) uint32 {
-	key := string(params) + ">" + string([]byte{result})
+func (b *modBuilder) add(params []byte, results []byte, body []byte) uint32 {
+	key := string(params) + ">" + string(results)
 	ti, ok := b.types[key]
 	if !ok {
 		ti = uint32(len(b.m.Types))
 		b.types[key] = ti
-		b.m.Types = append(b.m.Types, c.FT(params, []byte{result}))
+		b.m.Types = append(b.m.Types, c.FT(params, results))
 	}
 	idx := b.n
 	b.n++
@@ -151,23 +170,37 @@ type obs struct {
 	v    Val
 }
 
-func callFn(ctx context.Context, fn api.Function, r byte, args []uint64) (o obs) {
+func callFn(ctx context.Context, fn api.Function, rs []byte, args []uint64) (o []obs) {
+	o = make([]obs, len(rs))
 	defer func() {
 		if e := recover(); e != nil {
-			o = obs{set: true, trap: -8}
+			for i := range o {
+				o[i] = obs{set: true, trap: -8}
+			}
 		}
 	}()
 	res, err := fn.Call(ctx, args...)
 	if err != nil {
-		return obs{set: true, trap: trapCode(err)}
+		for i := range o {
+			o[i] = obs{set: true, trap: trapCode(err)}
+		}
+		return
 	}
-	switch r {
-	case 'i', 'f':
-		return obs{set: true, v: Val{uint64(uint32(res[0])), 0}}
-	case 'I', 'F':
-		return obs{set: true, v: Val{res[0], 0}}
+	k := 0
+	for i, r := range rs {
+		switch r {
+		case 'i', 'f':
+			o[i] = obs{set: true, v: Val{uint64(uint32(res[k])), 0}}
+			k++
+		case 'I', 'F':
+			o[i] = obs{set: true, v: Val{res[k], 0}}
+			k++
+		default:
+			o[i] = obs{set: true, v: Val{res[k], res[k+1]}}
+			k += 2
+		}
 	}
-	return obs{set: true, v: Val{res[0], res[1]}}
+	return
 }
 
 func flatArgs(p string, args []Val) []uint64 {
@@ -190,6 +223,9 @@ func main() {
 	ex8 := flag.Bool("ex8", false, "exhaustive operand pairs for 8-bit lane operations")
 	extN := flag.Int("ext", 0, "sample size of the extended boundary set per operand position (0 = all)")
 	only := flag.String("only", "", "restrict to operations whose name contains this")
+	ncombo := flag.Int("combo", 300, "random cross-family pairs (and a third as many triples) on top of the family pairs; -1 disables combos")
+	combocalls := flag.Int("combocalls", 10, "calls per combo function")
+	famcap := flag.Int("famcap", 0, "at most this many pairs per family (seed-dependent sample; 0 = all unordered pairs)")
 	flag.Parse()
 	ctx := context.Background()
 	want := map[string]bool{}
@@ -208,36 +244,7 @@ func main() {
 		for j, s := range op.Shape {
 			ks[j] = kindOf(s)
 		}
-		var imms [][]byte
-		switch {
-		case op.Imm == 0:
-			imms = [][]byte{nil}
-		case op.Imm > 0:
-			for l := 0; l < op.Imm; l++ {
-				imms = append(imms, []byte{byte(l)})
-			}
-		default: // shuffle
-			fixed := [][]byte{}
-			id := make([]byte, 16)
-			rev := make([]byte, 16)
-			hi := make([]byte, 16)
-			il := make([]byte, 16)
-			for l := 0; l < 16; l++ {
-				id[l] = byte(l)
-				rev[l] = byte(31 - l)
-				hi[l] = byte(16 + l)
-				il[l] = byte(l/2 + 16*(l%2))
-			}
-			fixed = append(fixed, id, rev, hi, il)
-			for k := 0; k < 12; k++ {
-				s := make([]byte, 16)
-				for l := range s {
-					s[l] = byte(rng.Intn(32))
-				}
-				fixed = append(fixed, s)
-			}
-			imms = fixed
-		}
+		imms := immsOf(op, rng, true)
 		for _, imm := range imms {
 			b, nr := *budget, *nrand
 			if len(imms) > 1 { // lane-indexed variants share the budget
@@ -245,11 +252,11 @@ func main() {
 			}
 			tuples := laneTuples(rng, ks, b*maxLanes(ks), nr*maxLanes(ks), *ex8, *extN*maxLanes(ks))
 			calls := pack(rng, ks, tuples)
-			v := &Variant{Op: op, Imm: imm, Calls: calls, Const: make([]bool, len(calls))}
-			v.ImmZ = new(big.Int)
-			for l := len(imm) - 1; l >= 0; l-- {
-				v.ImmZ.Lsh(v.ImmZ, 8).Or(v.ImmZ, big.NewInt(int64(imm[l])))
+			arg := make([]int, len(op.P))
+			for j := range arg {
+				arg[j] = j
 			}
+			v := &Variant{Comps: []Comp{{Op: op, Imm: imm, ImmZ: immZ(imm), Arg: arg}}, P: op.P, Calls: calls, Const: make([]bool, len(calls))}
 			nc := *nconst
 			if len(imms) > 1 {
 				nc = nc/len(imms) + 2
@@ -260,6 +267,9 @@ func main() {
 			vars = append(vars, v)
 		}
 	}
+	if *ncombo >= 0 && *only == "" {
+		vars = append(vars, combos(ops, want, *seed, *ncombo, *combocalls, *famcap)...)
+	}
 
 	// ---- modules: parameter mode, memory mode, constant mode (chunked) ----
 	pm, mm := newMB(false), newMB(true)
@@ -269,18 +279,25 @@ func main() {
 	}
 	var cmods []*modBuilder
 	cidx := make([][]cref, len(vars))
+	rtypes := make([][]byte, len(vars)) // result type letters
 	const chunk = 4000
 	for vi, v := range vars {
-		op := v.Op
-		opb := c.Cat(op.Code, v.Imm)
 		var pb, mb []byte
-		for i := range op.P {
-			pb = append(pb, c.LocalGet(uint32(i))...)
-			mb = append(mb, c.I32Const(0)...)
-			mb = append(mb, loadInstr(op.P[i], uint32(16*i))...)
+		var res []byte
+		for _, cp := range v.Comps {
+			opb := c.Cat(cp.Op.Code, cp.Imm)
+			for i, a := range cp.Arg {
+				pb = append(pb, c.LocalGet(uint32(a))...)
+				mb = append(mb, c.I32Const(0)...)
+				mb = append(mb, loadInstr(cp.Op.P[i], uint32(16*a))...)
+			}
+			pb = append(pb, opb...)
+			mb = append(mb, opb...)
+			res = append(res, vt(cp.Op.R))
+			rtypes[vi] = append(rtypes[vi], cp.Op.R)
 		}
-		pm.add(vts(op.P), vt(op.R), c.Cat(pb, opb))
-		mm.add(nil, vt(op.R), c.Cat(mb, opb))
+		pm.add(vts(v.P), res, pb)
+		mm.add(nil, res, mb)
 		cidx[vi] = make([]cref, len(v.Calls))
 		for ci, args := range v.Calls {
 			if !v.Const[ci] {
@@ -291,10 +308,13 @@ func main() {
 			}
 			cb := cmods[len(cmods)-1]
 			var body []byte
-			for i := range op.P {
-				body = append(body, constInstr(op.P[i], args[i])...)
+			for _, cp := range v.Comps {
+				for i, a := range cp.Arg {
+					body = append(body, constInstr(cp.Op.P[i], args[a])...)
+				}
+				body = append(body, c.Cat(cp.Op.Code, cp.Imm)...)
 			}
-			cidx[vi][ci] = cref{len(cmods) - 1, cb.add(nil, vt(op.R), c.Cat(body, opb))}
+			cidx[vi][ci] = cref{len(cmods) - 1, cb.add(nil, res, body)}
 		}
 	}
 	pbin, mbin := pm.m.Bytes(), mm.m.Bytes()
@@ -303,15 +323,24 @@ func main() {
 		cbins = append(cbins, cb.m.Bytes())
 	}
 
-	results := make([][][6]obs, len(vars))
+	results := make([][][6][]obs, len(vars))
 	for vi, v := range vars {
-		results[vi] = make([][6]obs, len(v.Calls))
+		results[vi] = make([][6][]obs, len(v.Calls))
 	}
 	var wg sync.WaitGroup
 	var failMu sync.Mutex
 	var failures []string
 	fail := func(s string) { failMu.Lock(); failures = append(failures, s); failMu.Unlock() }
+	instantiate := func(rt wazero.Runtime, bin []byte) (mod api.Module, err error) {
+		defer func() {
+			if e := recover(); e != nil {
+				err = fmt.Errorf("PANIC while compiling/instantiating: %v", e)
+			}
+		}()
+		return rt.Instantiate(ctx, bin)
+	}
 	for e, eng := range []string{"interp", "compiler"} {
+		eng := eng
 		newRT := func() wazero.Runtime {
 			if eng == "compiler" {
 				return wazero.NewRuntimeWithConfig(ctx, wazero.NewRuntimeConfigCompiler())
@@ -324,7 +353,7 @@ func main() {
 			defer wg.Done()
 			rt := newRT()
 			defer rt.Close(ctx)
-			mod, err := rt.Instantiate(ctx, pbin)
+			mod, err := instantiate(rt, pbin)
 			if err != nil {
 				fail(eng + " param module: " + err.Error())
 				return
@@ -332,7 +361,7 @@ func main() {
 			for vi, v := range vars {
 				fn := mod.ExportedFunction(fmt.Sprintf("f%d", vi))
 				for ci, args := range v.Calls {
-					results[vi][ci][3*e+0] = callFn(ctx, fn, v.Op.R, flatArgs(v.Op.P, args))
+					results[vi][ci][3*e+0] = callFn(ctx, fn, rtypes[vi], flatArgs(v.P, args))
 				}
 			}
 		}(e, eng)
@@ -342,7 +371,7 @@ func main() {
 			defer wg.Done()
 			rt := newRT()
 			defer rt.Close(ctx)
-			mod, err := rt.Instantiate(ctx, mbin)
+			mod, err := instantiate(rt, mbin)
 			if err != nil {
 				fail(eng + " memory module: " + err.Error())
 				return
@@ -355,7 +384,7 @@ func main() {
 						mem.WriteUint64Le(uint32(16*i), args[i][0])
 						mem.WriteUint64Le(uint32(16*i+8), args[i][1])
 					}
-					results[vi][ci][3*e+2] = callFn(ctx, fn, v.Op.R, nil)
+					results[vi][ci][3*e+2] = callFn(ctx, fn, rtypes[vi], nil)
 				}
 			}
 		}(e, eng)
@@ -366,7 +395,7 @@ func main() {
 				defer wg.Done()
 				rt := newRT()
 				defer rt.Close(ctx)
-				mod, err := rt.Instantiate(ctx, cbins[mi])
+				mod, err := instantiate(rt, cbins[mi])
 				if err != nil {
 					fail(fmt.Sprintf("%s const module %d: %v", eng, mi, err))
 					return
@@ -375,7 +404,7 @@ func main() {
 					for ci := range v.Calls {
 						if v.Const[ci] && cidx[vi][ci].mod == mi {
 							fn := mod.ExportedFunction(fmt.Sprintf("f%d", cidx[vi][ci].fn))
-							results[vi][ci][3*e+1] = callFn(ctx, fn, v.Op.R, nil)
+							results[vi][ci][3*e+1] = callFn(ctx, fn, rtypes[vi], nil)
 						}
 					}
 				}
@@ -396,33 +425,74 @@ func main() {
 		z.Lsh(z, 64).Or(z, new(big.Int).SetUint64(v[0]))
 		return z.String()
 	}
+	// one line per (function, call, component); "combo" names the function when it holds several instructions
 	for vi, v := range vars {
 		for ci, args := range v.Calls {
-			fmt.Fprintf(w, "{\"op\":%d,\"n\":%q,\"imm\":%s,\"a\":[", v.Op.ID, v.Op.Name, v.ImmZ.String())
-			for i := range args {
-				if i > 0 {
-					w.WriteByte(',')
+			for k, cp := range v.Comps {
+				fmt.Fprintf(w, "{\"op\":%d,\"n\":%q,\"imm\":%s,\"combo\":%q,\"a\":[", cp.Op.ID, cp.Op.Name, cp.ImmZ.String(), v.Name)
+				for i, a := range cp.Arg {
+					if i > 0 {
+						w.WriteByte(',')
+					}
+					w.WriteString(big128(args[a]))
 				}
-				w.WriteString(big128(args[i]))
+				w.WriteString("],\"r\":[")
+				for s := 0; s < 6; s++ {
+					if s > 0 {
+						w.WriteByte(',')
+					}
+					os := results[vi][ci][s]
+					switch {
+					case os == nil || !os[k].set:
+						w.WriteString("null")
+					case os[k].trap != 0:
+						fmt.Fprintf(w, "%d", os[k].trap)
+					default:
+						w.WriteString(big128(os[k].v))
+					}
+				}
+				w.WriteString("]}\n")
 			}
-			w.WriteString("],\"r\":[")
-			for k := 0; k < 6; k++ {
-				if k > 0 {
-					w.WriteByte(',')
-				}
-				o := results[vi][ci][k]
-				switch {
-				case !o.set:
-					w.WriteString("null")
-				case o.trap != 0:
-					fmt.Fprintf(w, "%d", o.trap)
-				default:
-					w.WriteString(big128(o.v))
-				}
-			}
-			w.WriteString("]}\n")
 		}
 	}
+}
+
+// immsOf lists the immediates exercised for an operation: all lane indices / a fixed set of shuffles for
+// single-instruction functions (all = true), one seed-chosen immediate otherwise.
+func immsOf(op *Op, rng *c.Rng, all bool) [][]byte {
+	switch {
+	case op.Imm == 0:
+		return [][]byte{nil}
+	case op.Imm > 0:
+		if !all {
+			return [][]byte{{byte(rng.Intn(op.Imm))}}
+		}
+		var imms [][]byte
+		for l := 0; l < op.Imm; l++ {
+			imms = append(imms, []byte{byte(l)})
+		}
+		return imms
+	}
+	var imms [][]byte
+	if all {
+		id, rev, hi, il := make([]byte, 16), make([]byte, 16), make([]byte, 16), make([]byte, 16)
+		for l := 0; l < 16; l++ {
+			id[l], rev[l], hi[l], il[l] = byte(l), byte(31-l), byte(16+l), byte(l/2+16*(l%2))
+		}
+		imms = append(imms, id, rev, hi, il)
+	}
+	n := 12
+	if !all {
+		n = 1
+	}
+	for k := 0; k < n; k++ {
+		s := make([]byte, 16)
+		for l := range s {
+			s[l] = byte(rng.Intn(32))
+		}
+		imms = append(imms, s)
+	}
+	return imms
 }
 
 func maxLanes(ks []laneKind) int {
